@@ -46,3 +46,28 @@ fn clsgrp_double_large_factor_ok() {
     // maxprime^2 * f must fit u64 for maxprime < 2^24
     assert!(f < (1 << 16));
 }
+
+// @harness clsgrp_a_supply unit=classgroup::a_params props=C20
+#[kani::proof]
+#[kani::unwind(30)]
+fn clsgrp_a_supply_ok() {
+    // consumer: classgroup() asserts that select_a delivered `count` values of A; select_siqs_factors offers a pool of at
+    // most 4 * facs primes and an A is a product of `facs` distinct ones, so at most C(4 facs, facs) values exist
+    let sz: u32 = kani::any();
+    kani::assume(sz <= 512);
+    let (count, facs) = a_params(sz);
+    if facs >= 1 {
+        let f = facs as u64;
+        let mut c: u64 = 1;
+        let mut i: u64 = 0;
+        while i < f {
+            // C(4f, i + 1) = C(4f, i) * (4f - i) / (i + 1), saturated far above any requested count
+            c = c * (4 * f - i) / (i + 1);
+            if c > (1 << 40) {
+                c = 1 << 40;
+            }
+            i += 1;
+        }
+        assert!((count as u64) <= c);
+    }
+}
